@@ -749,7 +749,16 @@ def _parse_source_for_lambda(
         # Setup the tokenizer
         t_stream = _token_runner(source, lambda_line)
 
-        func_name, start_token = t_stream.find_identifier(["def", "lambda"])
+        # A lambda is looked for as a lambda and a function as a `def`, whatever else the line
+        # holds (a lambda written inside a one-line function, a lambda in a decorator).
+        callable_name = getattr(ast_source, "__name__", None)
+        if callable_name == "<lambda>":
+            wanted = ["lambda"]
+        elif callable_name is not None:
+            wanted = ["def"]
+        else:
+            wanted = ["def", "lambda"]
+        func_name, start_token = t_stream.find_identifier(wanted)
 
         if start_token is None:
             return None
